@@ -291,6 +291,8 @@ def cbmc_cmd(q, gb, trace=False):
         cmd += ["--partial-loops", "--no-unwinding-assertions"]
         cmd.remove("--unwinding-assertions")
     if trace:
+        # slicing would remove the recorded input draws from the trace
+        cmd = [c for c in cmd if c != "--slice-formula"]
         cmd += ["--trace", "--stop-on-fail"]
     return cmd
 
@@ -344,9 +346,7 @@ def _run_query(q, run_dir):
     if "VERIFICATION SUCCESSFUL" not in out and "VERIFICATION FAILED" not in out:
         r.detail = "no verdict (rc=%s): %s" % (rc, out[-1500:])
         return r
-    if any(st in ("UNKNOWN", "ERROR") for _, _, _, st in props):
-        r.detail = "property with UNKNOWN/ERROR status"
-        return r
+    undecided = any(st in ("UNKNOWN", "ERROR") for _, _, _, st in props)
     # obligations whose text starts with MUSTFAIL are existence claims: the solver must find a witness
     mustfail_ok = [(pid, line, desc) for pid, line, desc, st in props if desc.startswith("MUSTFAIL") and st == "FAILURE"]
     mustfail_bad = [(pid, line, desc) for pid, line, desc, st in props if desc.startswith("MUSTFAIL") and st == "SUCCESS"]
@@ -356,7 +356,10 @@ def _run_query(q, run_dir):
     real = [f for f in failed if f[2] != "WITNESS"]
     r.failed = ["%s line %s: %s" % f for f in real]
     if real:
-        r.status = "FAIL"
+        r.status = "FAIL"          # a found counterexample stands even if other obligations were left undecided
+    elif undecided:
+        r.detail = "property with UNKNOWN/ERROR status"
+        return r
     elif q.no_witness:
         r.status = "PASS"
     elif not witness:
